@@ -271,6 +271,49 @@ class Executor:
             self.kinds[st["out"]] = "program"
         return D.render_program(new, self.root, self.loose)
 
+    def _decode(self, v):
+        import numpy as np
+        import sympy as sym
+        if isinstance(v, dict):
+            t = v.get("t")
+            if t == "nd":
+                return np.array(v["v"], dtype={"f": float, "i": int, "c": complex}[v.get("d", "f")])
+            if t == "c":
+                return complex(v["re"], v["im"])
+            if t == "sym":
+                return sym.sympify(v["e"], locals={n: sym.Symbol(n) for n in v["names"]})
+            if t == "rrt":
+                from blackbird.listener import RegRefTransform
+                return RegRefTransform(sym.sympify(v["e"], locals={n: sym.Symbol(n) for n in v["names"]}))
+            if t == "list":
+                return [self._decode(x) for x in v["v"]]
+        return v
+
+    def op_build(self, st):
+        """Assemble a program through the Python API (the way the repository's tests do)."""
+        import sympy as sym
+        spec = st["spec"]
+        p = self.bb.BlackbirdProgram(name=spec.get("name", "built"), version="1.0")
+        if spec.get("target"):
+            p._target["name"] = spec["target"]
+            p._target["options"] = {k: self._decode(v) for k, v in spec.get("options", [])}
+        if spec.get("type"):
+            p._type["name"] = spec["type"]
+        for o in spec["ops"]:
+            d = {"op": o["op"]}
+            if o.get("args") is not None:
+                d["args"] = [self._decode(a) for a in o["args"]]
+                d["kwargs"] = {k: self._decode(a) for k, a in o.get("kwargs", [])}
+            d["modes"] = list(o["modes"])
+            p._operations.append(d)
+            p._modes |= set(o["modes"])
+        p._parameters = [sym.Symbol(n) for n in spec.get("params", [])]
+        for k, v in spec.get("vars", []):
+            p._var[k] = self._decode(v)
+        self.objs[st["out"]] = p
+        self.kinds[st["out"]] = "program"
+        return ["built", len(p)]
+
     def op_mkarray(self, st):
         """A caller-owned numpy array that later template calls can be given by reference."""
         import numpy as np
